@@ -18,6 +18,15 @@ GNext ==
   \/ Step(RecvStep, "RecvStep") \/ Step(DoClose, "DoClose")
 GSpec == GInit /\ [][GNext]_gvars
 
+(* Goal-directed generation (checked as invariants whose violation TLC reports with a shortest   *)
+(* behaviour): a timer callback that is still parked when the run loop has sent the end marker   *)
+(* and closed the channel - after Close (GoalLateAfterClose) or after end of input               *)
+(* (GoalLateAfterEOF).  The behaviour plus the callback's remaining steps is replayed on the     *)
+(* real parser: a callback that still emits there panics or delivers after the end marker.       *)
+Parked == \E k \in 1..MaxLen : tm[k] = "fired"
+GoalLateAfterClose == ~(closed /\ closeReq /\ Parked)
+GoalLateAfterEOF == ~(closed /\ ~closeReq /\ Parked)
+
 EmitSched == (Finished \/ panic) =>
           PrintT("SCHED " \o ToJson([inp |-> inp, eofGap |-> eofGap, acts |-> hist, panic |-> panic, clobber |-> clobber]))
 =============================================================================
